@@ -1,5 +1,6 @@
 """C16 — Directory root CID depends only on final entries and configuration (spec/Directory, Strict = TRUE)."""
 import importlib.util, json, os
+import time
 import concurrent.futures as cf
 
 import vlib
@@ -41,17 +42,18 @@ def run(ctx):
     ctx.specdir("Directory")
     ex = cf.ThreadPoolExecutor(max_workers=6)
     # ---- M: the defect-free logic satisfies the property; the gate alone breaks the rule; as-built model is type-safe
-    f_mc = ex.submit(ctx.tlc_mc, "Directory", "Directory.tla", "MCDirectory.cfg", timeout=2400, coverage=not q,
-                     allow_zero=("ResetTo",), workers=4 if q else 8)
-    f_dev = ex.submit(ctx.tlc_mc, "Directory", "Directory.tla", "MCDirectoryDev.cfg", timeout=1200, workers=2,
-                      expect_violation="ShardedIffRuleStrict")
-    f_all = None if q else ex.submit(ctx.tlc_mc, "Directory", "Directory.tla", "MCDirectoryAllDevs.cfg", timeout=3000, workers=8)
+    def sub(f, *a, **kw):
+        time.sleep(0.1)        # vlib names TLC's metadir by millisecond
+        return ex.submit(f, *a, **kw)
+    f_mc = sub(H.mc, ctx, "MCDirectory.cfg", timeout=2400, workers=4 if q else 8)
+    f_dev = sub(H.mc, ctx, "MCDirectoryDev.cfg", timeout=1200, workers=2, expect_violation="ShardedIffRuleStrict")
+    f_all = None if q else sub(H.mc, ctx, "MCDirectoryAllDevs.cfg", timeout=3000, workers=8)
     # ---- G generators + harness build, concurrently
-    f_beh = ex.submit(ctx.tlc_gen, "Directory", "GenDirectory.tla", "GenDirectory16D4.cfg" if q else "GenDirectory16D5.cfg",
+    f_beh = sub(ctx.tlc_gen, "Directory", "GenDirectory.tla", "GenDirectory16D4.cfg" if q else "GenDirectory16D5.cfg",
                       timeout=3000, workers=4)
-    f_sim = ex.submit(ctx.tlc_gen, "Directory", "GenDirectory.tla", "GenDirectorySim16.cfg", simulate=8 if q else 100,
+    f_sim = sub(ctx.tlc_gen, "Directory", "GenDirectory.tla", "GenDirectorySim16.cfg", simulate=8 if q else 100,
                       depth=41 * (3 if q else 8) + 1, timeout=1200)
-    f_d6 = None if q else ex.submit(ctx.tlc_gen, "Directory", "GenDirectory.tla", "GenDirectory16D6One.cfg", timeout=3000, workers=4)
+    f_d6 = None if q else sub(ctx.tlc_gen, "Directory", "GenDirectory.tla", "GenDirectory16D6One.cfg", timeout=3000, workers=4)
     f_bin = ex.submit(H.build, ctx)
     behs, sims, binp = f_beh.result(), f_sim.result(), f_bin.result()
     if not behs or not sims:
